@@ -76,3 +76,18 @@ where
         )
     }
 }
+
+// Every value a node publishes on its leader-change watch, in order (a watch only keeps the
+// latest value; an application thread may observe any of them). Per thread, drained by the harness.
+thread_local! {
+    static LEADER_NOTIFICATIONS: std::cell::RefCell<Vec<(u32, Option<(u32, u64)>)>> = const { std::cell::RefCell::new(Vec::new()) };
+}
+
+pub(super) fn record_leader_notification(node_id: u32, value: Option<(u32, u64)>) {
+    LEADER_NOTIFICATIONS.with(|n| n.borrow_mut().push((node_id, value)));
+}
+
+/// Take the notifications recorded on this thread since the last call: (node, leader id/term).
+pub fn verif_take_leader_notifications() -> Vec<(u32, Option<(u32, u64)>)> {
+    LEADER_NOTIFICATIONS.with(|n| std::mem::take(&mut *n.borrow_mut()))
+}
